@@ -20,6 +20,9 @@ REQUIRED_BRANCHES = [
     "dmatchset-nonempty", "op:dsearch", "op:normrt",
     # multi-term queries (prefix / wildcard / regexp / fuzzy / term range): one part per DISTINCT matching term, also when >= 3 segments share the term
     "m-term-in-3plus-segments", "m-parts-ok", "m-multi-part", "m-prefix", "m-wildcard", "m-regexp", "m-fuzzy", "m-range", "mmatchset-nonempty", "op:msearch",
+    # a disjunction of more than DisjunctionHeapTakeover = 10 searchers (11-16 should clauses / a prefix or wildcard clause expanding to 11+ terms)
+    # driven by Advance under a must clause, past a pending candidate that lacks the must term
+    "heap-disjunction-under-must", "heap-multi-term-under-must",
     "fuzzy-boost-nonpositive-hit", "fuzzy-boost-nonpositive-part-positive-hit",   # fixed probe: fuzzy term no longer than the fuzziness (known finding fuzzy-term-boost-not-positive)
     "score-none-zero",                                # score mode "none": Score(0, 0) = 0 for b < 1 (and NaN for b = 1, branch score-none-nan: reported, outside 1 <= f)
 ]
